@@ -1244,6 +1244,11 @@ func buildMessageFieldSchema(pkg *Package, context fieldContext, src protoreflec
 		// flattened objects) would inline its properties without end.
 		return nil, fmt.Errorf("field %s flattens %s recursively", src.Name(), msg.FullName())
 	}
+	if flatten && didExist && build.flattensIntoChain(ref, map[*RefSchema]bool{}) {
+		// The same through an object which was built earlier, when the
+		// chain was a different one.
+		return nil, fmt.Errorf("field %s flattens %s recursively", src.Name(), msg.FullName())
+	}
 	if !didExist {
 		outerChain := build.flattenChain
 		if flatten {
